@@ -425,14 +425,14 @@ META = {
 
 
 # ------------------------------------------------------------------ C06.image: whole images with awkward sibling names through the real export
-def h_image(fmt: int, n: int, i0: int, i1: int, i2: int, i3: int, sc: int) -> int:
+def h_image(fmt: int, n: int, i0: int, i1: int, i2: int, i3: int, sc: int, lvl: int = 0) -> int:
     """
-    pre: 0 <= fmt <= 2 and 2 <= n <= 4 and 0 <= i0 <= 27 and 0 <= i1 <= 27 and 0 <= i2 <= 27 and 0 <= i3 <= 27 and 0 <= sc <= 1
+    pre: 0 <= fmt <= 2 and 2 <= n <= 4 and 0 <= i0 <= 27 and 0 <= i1 <= 27 and 0 <= i2 <= 27 and 0 <= i3 <= 27 and 0 <= sc <= 1 and 0 <= lvl <= 4
     post: _ == 1
     """
     CNT[0] += 1
     from vf.util import conc, untraced
-    fmt, n, sc = conc(fmt, 0, 2), conc(n, 2, 4), conc(sc, 0, 1)
+    fmt, n, sc, lvl = conc(fmt, 0, 2), conc(n, 2, 4), conc(sc, 0, 1), conc(lvl, 0, 4)
     idx = [conc(i, 0, 27) for i in (i0, i1, i2, i3)[:n]]
     with untraced():
         from vf import nameimg as N
@@ -443,9 +443,15 @@ def h_image(fmt: int, n: int, i0: int, i1: int, i2: int, i3: int, sc: int) -> in
         names = [table[i] for i in idx]
         # region first (from the names alone): does a merged pair's stem meet another output name of the directory?  Known finding F7b lives
         # there and only there; CDDA tracks are never merged, so the region is empty for fmt 2
-        if (1 if (fmt != 2 and _stem_collision_possible(names)) else 0) != sc:
+        if (lvl > 0 and fmt == 2) or (lvl in (1, 2) and fmt == 0):
+            return 1                                     # combinations that do not exist
+        if (1 if (fmt != 2 and lvl == 0 and _stem_collision_possible(names)) else 0) != sc:
             return 1                                     # the other region's obligation owns this shape
-        img, _d, prefix = N.build(fmt, names)
+        img, _d, prefix = N.build(fmt, names, level=lvl)
+        if lvl == 2:
+            names = names + ["SK"]                       # the orphan image also holds the sample of the performance that keeps the volume alive
+            n = n + 1
+            prefix = "out/"
         _k, files, log = c16._do(N.open_image(img), ("export", None))
         lines = [ln for ln in log.split("\n") if ln.startswith("Exported ")]
         if len(lines) != len(files) or len(set(lines)) != len(lines):
@@ -488,7 +494,7 @@ def _stem_collision_possible(names):
 
 
 
-def image_obligations(prefix, module, tier, dup, extra=(), cdda=False):
+def image_obligations(prefix, module, tier, dup, extra=(), cdda=False, levels=False, same_inner=False):
     """name-image obligations shared by C05/C06/C10: 2 siblings: every pair of name classes; 3 siblings: split by the first sibling's class
     (quick: a few first classes; thorough: all); 4 siblings (thorough): first two pinned to an L/R pair"""
     from vf import nameimg as N
@@ -506,6 +512,17 @@ def image_obligations(prefix, module, tier, dup, extra=(), cdda=False):
         if not q:
             for f in range(K):
                 obs.append(mk(f"n=4/L+R+{f}", ["n == 4", "i0 == 1", "i1 == 2", f"i2 == {f}"], f"4 siblings: an L/R pair + 2 over {K} name classes"))
+        if levels and fmt != 2:
+            # the same names one or two directory levels up: Roland performances (in a volume / orphans), AKAI and Roland volumes
+            for lvl, lname in ((3, "volumes"),) if fmt == 0 else ((1, "performances"), (2, "orphan-performances"), (3, "volumes")):
+                obs.append(mk(f"{lname}/n=2", ["n == 2", f"lvl == {lvl}"], f"2 sibling {lname} over {K} name classes"))
+                for f in ((K - 1,) if q else range(K)):
+                    obs.append(mk(f"{lname}/n=3/first={f}", ["n == 3", f"i0 == {f}", f"lvl == {lvl}"], f"3 sibling {lname} over {K} name classes"))
+            if same_inner:
+                obs.append(mk("volumes-same-inner-names/n=2", ["n == 2", "lvl == 4"], f"2 volumes over {K} name classes, identical performance / sample names inside"))
+    for o in obs:
+        if levels and "lvl ==" not in " ".join(o["extra_pre"]):
+            o["extra_pre"] = o["extra_pre"] + ["lvl == 0"]
     return obs
 
 
@@ -530,5 +547,5 @@ def obligations(tier, seed):
     for kind, nm in enumerate(["traversable", "akai-image", "akai-volume", "cdda-image", "roland-performance", "roland-partial"]):
         obs.append(dict(name=f"C06.levels/{nm}", module="vf.props.c06", func="h_levels", extra_pre=[f"kind == {kind}"], timeout=120, runs=RUNS,
                         sym="number of children", bound="0..3 children; recording routines", stubs=["recording routines", "stub child realisers"]))
-    obs += image_obligations("C06.image", "vf.props.c06", tier, dup=True, cdda=True)
+    obs += image_obligations("C06.image", "vf.props.c06", tier, dup=True, cdda=True, levels=True, same_inner=True)
     return obs
